@@ -53,6 +53,11 @@ type vfC10Case struct {
 	// KeyspaceChanged), "fetch-fail-ks" (the keyspace metadata lookup fails during KeyspaceChanged),
 	// "fetch-remove" (it fails while the highest-numbered node is removed).  Look3 = lookups afterwards.
 	Fault string `json:"fault"`
+	// DcNames: how the abstract datacenter names (dc1, dc2, dc3, dcX) are spelled in the host rows and in
+	// the keyspace options: "" (as they are), "upper" (DC1 ..), "mixed" (names that differ only in the
+	// case of letters are DIFFERENT datacenters: dc1 -> "DC1", dc2 -> "dc1", dc3 -> "Dc1", dcX -> "dC1"),
+	// "blank" (surrounding blanks are part of the name: " dc1", "dc2 ", " dc3 ", "dcX  ")
+	DcNames string `json:"dcnames"`
 }
 
 type vfC10Entry struct {
@@ -62,27 +67,28 @@ type vfC10Entry struct {
 
 // vfC10Vector is a case together with what the real code returned for it.
 type vfC10Vector struct {
-	ID     int          `json:"id"`
-	Part   string       `json:"part"`
-	Form   string       `json:"form"`
-	Ring   []int        `json:"ring"`
-	Dc     []string     `json:"dc"`
-	Rack   []string     `json:"rack"`
-	Strat  string       `json:"strat"`
-	RfDc   []string     `json:"rfdc"`
-	RfN    []int        `json:"rfn"`
-	Tokens []int        `json:"tokens"`
-	Down   []int        `json:"down"`
-	Spread string       `json:"spread"`
-	Pol    string       `json:"pol"`
-	Map2   []vfC10Entry `json:"map2"`  // the replica map a token aware policy holds after routing queries
-	Look2  []vfC10Entry `json:"look2"` // ... and its lookups
-	Fault  string       `json:"fault"`
-	Look3  []vfC10Entry `json:"look3"`  // lookups in the policy's replica map after the faulty update
-	PClass string       `json:"pclass"` // none | mapsize | map-other | lookup | build | policy
-	PMsg   string       `json:"pmsg"`
-	Map    []vfC10Entry `json:"map"`
-	Look   []vfC10Entry `json:"look"`
+	ID      int          `json:"id"`
+	Part    string       `json:"part"`
+	Form    string       `json:"form"`
+	Ring    []int        `json:"ring"`
+	Dc      []string     `json:"dc"`
+	Rack    []string     `json:"rack"`
+	Strat   string       `json:"strat"`
+	RfDc    []string     `json:"rfdc"`
+	RfN     []int        `json:"rfn"`
+	Tokens  []int        `json:"tokens"`
+	Down    []int        `json:"down"`
+	Spread  string       `json:"spread"`
+	Pol     string       `json:"pol"`
+	Map2    []vfC10Entry `json:"map2"`  // the replica map a token aware policy holds after routing queries
+	Look2   []vfC10Entry `json:"look2"` // ... and its lookups
+	DcNames string       `json:"dcnames"`
+	Fault   string       `json:"fault"`
+	Look3   []vfC10Entry `json:"look3"`  // lookups in the policy's replica map after the faulty update
+	PClass  string       `json:"pclass"` // none | mapsize | map-other | lookup | build | policy
+	PMsg    string       `json:"pmsg"`
+	Map     []vfC10Entry `json:"map"`
+	Look    []vfC10Entry `json:"look"`
 }
 
 // vfC10Tok maps an abstract integer token (0..1005) to the textual token of a partitioner,
@@ -208,6 +214,25 @@ func vfC10TokMap(c *vfC10Case, part string) func(v int) string {
 	panic("vfC10TokMap: unknown partitioner " + part)
 }
 
+// vfC10DcName spells an abstract datacenter name the way c.DcNames says (injective: different
+// abstract names stay different datacenters; datacenter names are case sensitive strings).
+func vfC10DcName(c *vfC10Case, dc string) string {
+	i := map[string]int{"dc1": 0, "dc2": 1, "dc3": 2, "dcX": 3}
+	k, ok := i[dc]
+	if !ok {
+		return dc
+	}
+	switch c.DcNames {
+	case "upper":
+		return strings.ToUpper(dc)
+	case "mixed":
+		return []string{"DC1", "dc1", "Dc1", "dC1"}[k]
+	case "blank":
+		return []string{" dc1", "dc2 ", " dc3 ", "dcX  "}[k]
+	}
+	return dc
+}
+
 func vfC10Hosts(c *vfC10Case, part string) []*HostInfo {
 	tm := vfC10TokMap(c, part)
 	toks := make([][]string, len(c.Dc))
@@ -219,7 +244,7 @@ func vfC10Hosts(c *vfC10Case, part string) []*HostInfo {
 		hosts[i] = &HostInfo{
 			hostId:         "h" + strconv.Itoa(i+1),
 			connectAddress: net.IPv4(10, 0, byte(i/200), byte(i%200+1)),
-			dataCenter:     c.Dc[i],
+			dataCenter:     vfC10DcName(c, c.Dc[i]),
 			rack:           c.Rack[i],
 			tokens:         toks[i],
 			state:          NodeUp,
@@ -248,7 +273,7 @@ func vfC10Keyspace(c *vfC10Case) *KeyspaceMetadata {
 	} else {
 		ks.StrategyClass = "org.apache.cassandra.locator.NetworkTopologyStrategy"
 		for i, dc := range c.RfDc {
-			ks.StrategyOptions[dc] = val(c.RfN[i])
+			ks.StrategyOptions[vfC10DcName(c, dc)] = val(c.RfN[i])
 		}
 	}
 	ks.StrategyOptions["class"] = ks.StrategyClass
@@ -270,7 +295,7 @@ func vfC10Ids(idx map[*HostInfo]int, hs []*HostInfo) []int {
 // vfC10Run executes one case on the real code for one partitioner.
 func vfC10Run(c *vfC10Case, part string) (v vfC10Vector) {
 	v = vfC10Vector{ID: c.ID, Part: part, Form: c.Form, Ring: c.Ring, Dc: c.Dc, Rack: c.Rack, Strat: c.Strat,
-		RfDc: c.RfDc, RfN: c.RfN, Tokens: c.Tokens, Down: append([]int{}, c.Down...), Spread: c.Spread, Pol: c.Pol, Fault: c.Fault,
+		RfDc: c.RfDc, RfN: c.RfN, Tokens: c.Tokens, Down: append([]int{}, c.Down...), Spread: c.Spread, Pol: c.Pol, Fault: c.Fault, DcNames: c.DcNames,
 		PClass: "none", Map: []vfC10Entry{}, Look: []vfC10Entry{}, Map2: []vfC10Entry{}, Look2: []vfC10Entry{}, Look3: []vfC10Entry{}}
 	stage := "build"
 	defer func() {
@@ -327,7 +352,7 @@ func vfC10Run(c *vfC10Case, part string) (v vfC10Vector) {
 	if c.Pol != "" {
 		stage = "policy"
 		v.Map2, v.Look2, v.Look3 = vfC10ViaPolicy(c, part, tm, abs)
-		if c.Fault == "" || (c.Fault == "fetch-remove" && len(c.Dc) < 2) {
+		if c.Fault == "" || ((c.Fault == "fetch-remove" || c.Fault == "remove") && len(c.Dc) < 2) {
 			v.Fault = ""
 		}
 	}
@@ -368,9 +393,9 @@ func vfC10ViaPolicy(c *vfC10Case, part string, tm func(int) string, abs map[stri
 	var base HostSelectionPolicy
 	switch {
 	case strings.HasPrefix(c.Pol, "rack"):
-		base = RackAwareRoundRobinPolicy("dc1", "r1")
+		base = RackAwareRoundRobinPolicy(vfC10DcName(c, "dc1"), "r1")
 	case strings.HasPrefix(c.Pol, "dc"):
-		base = DCAwareRoundRobinPolicy("dc1")
+		base = DCAwareRoundRobinPolicy(vfC10DcName(c, "dc1"))
 	default:
 		base = RoundRobinHostPolicy()
 	}
@@ -473,11 +498,12 @@ func vfC10ViaPolicy(c *vfC10Case, part string, tm func(int) string, abs map[stri
 	case "fetch-fail-ks":
 		fetchFails = true
 		pol.KeyspaceChanged(KeyspaceUpdateEvent{Keyspace: "vfks", Change: "UPDATED"})
-	case "fetch-remove":
+	case "fetch-remove", "remove":
+		// the highest-numbered node leaves (metadata lookup failing / healthy)
 		if len(hosts) < 2 {
 			return m, look, look3
 		}
-		fetchFails = true
+		fetchFails = c.Fault == "fetch-remove"
 		pol.RemoveHost(hosts[len(hosts)-1])
 	default:
 		panic("vfC10ViaPolicy: fault " + c.Fault)
@@ -633,11 +659,12 @@ func vfC10RandomCase(rnd *rand.Rand, id, maxNodes, maxVnodes int) *vfC10Case {
 		}
 	}
 	c.Spread = []string{"compact", "full", "edge", "zero"}[rnd.Intn(4)]
+	c.DcNames = []string{"", "upper", "mixed", "blank"}[rnd.Intn(4)]
 	if rnd.Intn(3) == 0 {
 		c.Pol = []string{"rr", "dc", "rack"}[rnd.Intn(3)] + []string{"", "-shuffle"}[rnd.Intn(2)] + []string{"", "-nonlocal"}[rnd.Intn(2)]
 	}
 	if c.Pol != "" {
-		c.Fault = []string{"", "local", "unknown-class", "bad-rf", "fetch-fail-ks", "fetch-remove"}[rnd.Intn(6)]
+		c.Fault = []string{"", "local", "unknown-class", "bad-rf", "fetch-fail-ks", "fetch-remove", "remove", "remove"}[rnd.Intn(8)]
 	}
 	// some nodes are down while the ring is built
 	c.Down = []int{}
